@@ -278,10 +278,15 @@ package env
 //@ ensures src1: e.values == old(e.values) && e.types == old(e.types)
 //@ ensures src2: mapdom(e.values) == old(mapdom(e.values))
 //@ ensures src3: mapvals(e.values) == old(mapvals(e.values))
-// content (one direction): everything the copy binds, the source binds to the same value / type - the copy never invents or
-// alters a binding. (That EVERY binding is copied needs a model of map iteration visiting all keys: not decided.)
+// content: the copy binds exactly what the source binds, to the same values / types (an independent snapshot of the scope).
+// 'Nothing invented': loop invariants below; 'nothing left out': every key the iteration has produced is in the copy, and - Go's
+// map iteration (ghost visited set) - when it ends every key of the source has been produced.
 //@ ensures [C12] valsubset: forall k string :: has(result.values, k) ==> has(e.values, k) && result.values[k] == e.values[k]
 //@ ensures [C12] typesubset: forall k string :: has(result.types, k) ==> has(e.types, k) && result.types[k] == e.types[k]
+//@ ensures [C12] valcomplete: forall k string :: has(e.values, k) ==> has(result.values, k)
+//@ ensures [C12] typecomplete: forall k string :: has(e.types, k) ==> has(result.types, k)
+//@ loop 0 invariant [C12] valproduced: forall k string :: visited(0, k) ==> has(copy.values, k)
+//@ loop 1 invariant [C12] typeproduced: (forall k string :: has(e.values, k) ==> has(copy.values, k)) && (forall k string :: visited(1, k) ==> has(copy.types, k))
 //@ loop 0 invariant [C12] valsubset: copy.values != nil && fresh(copy.values) && copy.types == nil && (forall k string :: has(copy.values, k) ==> has(e.values, k) && copy.values[k] == e.values[k])
 //@ loop 1 invariant [C12] typesubset: copy.types != nil && fresh(copy.types) && (e.values != nil ==> copy.values != nil && fresh(copy.values)) && (e.values == nil ==> copy.values == nil) && (forall k string :: has(copy.values, k) ==> has(e.values, k) && copy.values[k] == e.values[k]) && (forall k string :: has(copy.types, k) ==> has(e.types, k) && copy.types[k] == e.types[k])
 
